@@ -45,6 +45,60 @@ class VLoop(asyncio.SelectorEventLoop):
         proto.connection_made(tr)
         return tr, proto
 
+    async def create_datagram_endpoint(self, protocol_factory, local_addr=None, remote_addr=None, **kw):
+        proto = protocol_factory()
+        tr = FakeDatagramTransport(self, proto, self.net)
+        self.net.endpoints.append(tr)
+        proto.connection_made(tr)
+        self.net.on_endpoint(tr)
+        return tr, proto
+
+
+class _FakeSock:
+    def __init__(self):
+        self.opts = []
+
+    def setsockopt(self, *a):
+        self.opts.append(a)
+
+
+class FakeDatagramTransport(asyncio.DatagramTransport):
+    """in-memory UDP endpoint: records every sendto; the net delivers scripted datagrams until it is closed"""
+
+    def __init__(self, loop, proto, net):
+        super().__init__()
+        self._loop, self._proto, self._net = loop, proto, net
+        self._closing = False
+        self.sock = _FakeSock()
+        self.sent = []                 # (data, addr, time)
+        self.transport = self          # so that the dispatcher can treat it like a connection
+
+    def get_extra_info(self, name, default=None):
+        return self.sock if name == "socket" else default
+
+    def is_closing(self):
+        return self._closing
+
+    def sendto(self, data, addr=None):
+        self.sent.append((bytes(data), addr, self._loop.time()))
+        self._net.log.append(("sendto", bytes(data), addr, self._loop.time()))
+
+    def close(self):
+        if not self._closing:
+            self._closing = True
+            self._net.log.append(("udp-close", self._loop.time()))
+            self._loop.call_soon(self._proto.connection_lost, None)
+
+    def abort(self):
+        self.close()
+
+    def _deliver(self, item):
+        if self._closing:
+            return
+        data, addr = item
+        self._net.log.append(("dgram", addr, self._loop.time()))
+        self._proto.datagram_received(bytes(data), addr)
+
 
 class Conn:
     def __init__(self, cid, host, port):
@@ -114,6 +168,8 @@ class Net:
         self.conns = []
         self.log = []
         self.pre_event = None           # hook called with the connection before a write / close is logged
+        self.endpoints = []             # datagram endpoints created so far
+        self.dgrams = []                # scripted datagrams for the next endpoint: (delay_seconds, data, (ip, port))
         self._inflight, self._seq, self._armed, self._token = [], 0, None, 0
         self.loop = VLoop(self)
 
@@ -138,6 +194,15 @@ class Net:
         for delay, item in reply or []:
             self._seq += 1
             heapq.heappush(self._inflight, (round(nominal + delay, 6), self._seq, conn, item))
+        self._arm()
+
+    def on_endpoint(self, tr):
+        """a datagram endpoint was opened (and has sent its probes): schedule the scripted replies"""
+        nominal = round(self.loop.time(), 3)
+        script, self.dgrams = self.dgrams, []
+        for delay, data, addr in script:
+            self._seq += 1
+            heapq.heappush(self._inflight, (round(nominal + delay, 6), self._seq, tr, (bytes(data), addr)))
         self._arm()
 
     def _arm(self):
